@@ -410,18 +410,45 @@ def op_ph_insert(run):
     from pptx.enum.chart import XL_CHART_TYPE
 
     f = run.ensure_files()
-    s, ph = a_shape(run, lambda sh: sh.is_placeholder and sh.__class__.__name__ in ("PicturePlaceholder", "ChartPlaceholder", "TablePlaceholder", "SlidePlaceholder"))
+    r = run.rnd
+    want = r.choice(["pic", "chart", "tbl", "geom"])
+    if want == "geom":
+        s, ph = a_shape(run, lambda sh: sh.is_placeholder)
+        ph.left = gen.emu(r, small=True)
+        ph.width = gen.emu(r, signed=False, small=True)
+        run.acc.hit("placeholder:geometry-override")
+        return "geometry"
+    # a slide with an empty content placeholder of the wanted kind: the default template only has generic
+    # 'object' placeholders (and one picture placeholder on 'Picture with Caption'), so the kind is set on the
+    # slide's p:ph with lxml first (pre-state), then the placeholder is fetched again through the API
+    prs = run.prs
+    layouts = list(prs.slide_layouts)
+    lay = next((l for l in layouts if l.name == "Picture with Caption"), None) if want == "pic" and r.random() < 0.5 else None
+    if lay is None:
+        lay = next((l for l in layouts if any(p.placeholder_format.type is not None and p.placeholder_format.idx not in (0,) and p.__class__.__name__ == "LayoutPlaceholder" for p in l.placeholders)), layouts[0])
+    s = prs.slides.add_slide(lay)
+    run.slides_accessed = True
+    cands = [p for p in s.placeholders if p.placeholder_format.idx != 0 and p.__class__.__name__ in ("SlidePlaceholder", "PicturePlaceholder", "ChartPlaceholder", "TablePlaceholder")]
+    if not cands:
+        raise Rejected()
+    ph = r.choice(cands)
+    phel = xp(ph._element, ".//p:nvPr/p:ph")[0]
+    if ph.__class__.__name__ == "SlidePlaceholder":
+        phel.set("type", {"pic": "pic", "chart": "chart", "tbl": "tbl"}[want])
+        ph = next(p for p in s.placeholders if p.placeholder_format.idx == ph.placeholder_format.idx)
+    if r.random() < 0.3:
+        ph.name = gen.string(r, r.choice(["plain", "markup", "quotes"]), allow_breaks=False) or "ph"
     n = ph.__class__.__name__
     if n == "PicturePlaceholder":
-        ph.insert_picture(f["img2"])
+        ph.insert_picture(f[r.choice(["img2", "jpg"])])
     elif n == "ChartPlaceholder":
-        cd, _ = gen.chart_data(run.rnd, "category")
-        ph.insert_chart(XL_CHART_TYPE.COLUMN_CLUSTERED, cd)
+        tname = r.choice(gen.ALL_CHART_TYPES)
+        cd, _ = gen.chart_data(r, gen.chart_kind(tname))
+        ph.insert_chart(getattr(XL_CHART_TYPE, tname), cd)
     elif n == "TablePlaceholder":
-        ph.insert_table(2, 3)
+        ph.insert_table(r.randint(1, 3), r.randint(1, 4))
     else:
-        ph.left = gen.emu(run.rnd, small=True)
-        ph.width = gen.emu(run.rnd, signed=False, small=True)
+        raise Rejected()
     run.acc.hit("placeholder:" + n)
     return n
 
@@ -771,7 +798,7 @@ def op_chart_fmt(run):
     r = run.rnd
     ch = a_chart(run)
     k = r.choice(
-        ["has_legend", "legend", "has_title", "title_text", "style", "font", "cat_axis", "val_axis", "gridlines", "ticklabels", "plot", "dlabels", "series_fmt", "marker", "point", "axis_title", "style_bad"]
+        ["has_legend", "legend", "has_title", "title_text", "style", "font", "cat_axis", "val_axis", "gridlines", "ticklabels", "plot", "dlabels", "series_fmt", "marker", "point", "point", "axis_title", "style_bad", "crosses", "series_dlabels", "title_format"]
     )
     if k == "has_legend":
         ch.has_legend = r.random() < 0.6
@@ -830,8 +857,40 @@ def op_chart_fmt(run):
                 if hasattr(ax, bad):
                     setattr(ax, bad, r.choice([0, -1.5]) if "unit" in bad else r.choice([float("inf"), float("nan")]))
             ax.format.line.width = Pt(r.choice([0.5, 2]))
+    elif k == "crosses":
+        from pptx.enum.chart import XL_AXIS_CROSSES
+
+        try:
+            ax = ch.value_axis
+        except ValueError:
+            raise Rejected()
+        if r.random() < 0.5:
+            ax.crosses = r.choice(list(XL_AXIS_CROSSES))
+        else:
+            ax.crosses_at = r.choice([None, 0, 2.5, -10])
+    elif k == "series_dlabels":
+        sers = [s_ for s_ in ch.plots[0].series if hasattr(s_, "data_labels")]
+        if not sers:
+            raise Rejected()
+        dl = r.choice(sers).data_labels
+        dl.show_value = r.random() < 0.5
+        dl.font.size = Pt(6)
+        if r.random() < 0.5:
+            dl.number_format = "0.0"
+    elif k == "title_format":
+        ch.has_title = True
+        ch.chart_title.format.fill.solid()
+        ch.chart_title.format.fill.fore_color.rgb = gen.rgb(r)
+        try:
+            ax = ch.category_axis
+            ax.has_title = True
+            ax.axis_title.format.line.width = Pt(1)
+        except ValueError:
+            pass
     elif k == "plot":
         pl = ch.plots[0]
+        if hasattr(pl, "bubble_scale"):
+            pl.bubble_scale = r.choice([0, 100, 300, None, 301])
         if hasattr(pl, "gap_width"):
             pl.gap_width = r.choice([0, 150, 500])
         if hasattr(pl, "overlap"):
@@ -885,9 +944,12 @@ def op_chart_fmt(run):
         pt = se.points[r.choice([r.randrange(n), r.randrange(n), -1, n])]  # out of range: documented IndexError
         pt.format.fill.solid()
         pt.format.fill.fore_color.rgb = gen.rgb(r)
-        if r.random() < 0.5:
-            pt.data_label.text_frame.text = "pt"
-            pt.data_label.position = XL_DATA_LABEL_POSITION.CENTER
+        if r.random() < 0.6:
+            pt.data_label.text_frame.text = r.choice(["pt", "a & b", ""])
+            pt.data_label.position = r.choice([XL_DATA_LABEL_POSITION.CENTER, None])
+            pt.data_label.font.bold = True
+        elif r.random() < 0.5:
+            pt.data_label.has_text_frame = r.random() < 0.5
         if hasattr(pt, "marker"):
             pt.marker.size = 5
     run.acc.hit("chart:" + k)
@@ -988,7 +1050,7 @@ PROFILES = {
         "add_slide": 4, "add_shape": 4, "add_textbox": 4, "add_picture": 3, "add_connector": 2, "connect": 3, "add_group": 2, "add_freeform": 2, "add_chart": 5,
         "add_table": 4, "add_movie": 1, "add_ole": 1, "ph_insert": 3, "text_assign": 8, "text_struct": 5, "font": 8, "paragraph_fmt": 6,
         "textframe_fmt": 6, "run_hyperlink": 3, "fill": 10, "line": 5, "shadow": 2, "click_action": 3, "table": 9, "picture": 4, "autoshape": 8,
-        "chart_replace": 3, "chart_fmt": 14, "notes": 3, "slide_name": 1, "core_prop": 1, "save_stream": 1, "remove_layout": 1, "slide_index_bad": 1,
+        "chart_replace": 3, "chart_fmt": 22, "notes": 3, "slide_name": 1, "core_prop": 1, "save_stream": 1, "remove_layout": 1, "slide_index_bad": 1,
     },
     # C06: additions only
     "ids": {
